@@ -17,16 +17,21 @@ otherwise is recorded by `C08_newline_out_of_scope` (it panics) and covered by t
 `l = p ++ [w] ++ "(" ++ K ++ Q ++ ")"`, `w` white space, `K` a documented kind name or empty,
 `Q` one of `?`, `*`, `+` or empty, not both empty.
 
-Round trip, full-strength statement (FALSE today, see the `_fails_` theorems and the oracle
-classes `C08:equal-modifier-shaped-roundtrip`, `C08:escaped-pattern-roundtrip`,
-`C08:escaped-backslash-roundtrip`, `C08:escaped-no-eol-strip-roundtrip`):
-
-    ∀ e, '\n' ∉ P.escPrintable e.expr → ∃ e', parse P (toExpressionString P e) = .ok e' ∧
-      e'.optional = e.optional ∧ e'.multiline = e.multiline ∧ ∀ line, e'.matches line = e.matches line
-
-What is proved instead: `C08_roundtrip_partial` (under the decidable guards: re-making the rule
-from the rendered text reproduces it, and an `equal` text is printable and -- when it carries no
-quantifier -- does not itself end in a modifier), and that each guard is necessary.
+Round trip (after fix 2c946ec of `Rule::to_expression_string`): the canonical form of every
+expectation reads back as `reread P e` -- `e` itself, except that an `equal` expectation with
+unprintable content is deliberately written as `escaped` -- with the same quantifier, exactly when
+the rule constructor reproduces the expression from the text it is handed
+(`makeRule P (sourceKind P e) (sourceText P e) = some e.expr`). That is a contract on the rule
+constructors and the escaper, parameters here: for `equal` it says the printable rendering is
+the text, for `no-eol`/`regex` that `from_utf8_lossy` gives the text back (and, `regex`, that
+making is idempotent), for `escaped`/`glob` that unescaping inverts escaping (C04/C11).
+No guard on the shape of the text is left: `ends_like_modifier` over-approximates the grammar
+(`C08_ends_like_modifier_sound`).
+The contract is FALSE today in one known situation, oracle class
+`C08:escaped-no-eol-strip-roundtrip` (open finding): `EscapedRule::make` drops a trailing
+` (no-eol)` (Cram compatibility), so an `equal` text with unprintable characters that ends in
+` (no-eol)` -- witness `a<TAB> (no-eol) (equal)` -- is written `a\t (no-eol) (escaped)` and reads
+back without ` (no-eol)`. By `C08_roundtrip_iff` the round trip fails exactly there.
 -/
 namespace Scrut.Props.C08
 open Scrut.Grammar
@@ -92,69 +97,91 @@ the real `parse` panic (empty capture vector, `captures[0]`) -/
 theorem C08_newline_out_of_scope (W : Char → Bool) : extract W ['f', 'o', 'o', '\n'] = .error .crash :=
   extract_newline_crash W
 
-/-- **C08 (round trip, partial)**: parsing the canonical form gives the expectation back -- same
-kind, expression, quantifier, hence the same matches -- provided (guards, all decidable)
-* making the rule again from the rendered expression reproduces it (`hmk`; for `equal`/`no-eol`
-  this says the rendered text is the expression),
-* an `equal` expectation has a printable expression (`hunp`; otherwise see
-  `C08_roundtrip_equal_unprintable`) and, when it has no quantifier, its text does not itself end
-  in a modifier (`hshape`). -/
-theorem C08_roundtrip_partial (P : Params) (hw : P.isWhite ' ' = true) (e : Expectation)
-    (hnl : '\n' ∉ P.escPrintable e.expr)
-    (hmk : makeRule P e.kind (P.escPrintable e.expr) = some e.expr)
-    (hunp : e.kind = .equal → P.hasUnprintable e.expr = false)
-    (hshape : e.kind = .equal → quantOpt e.optional e.multiline = none →
-      ModifierShaped P.isWhite (P.escPrintable e.expr) = false) :
-    parse P (toExpressionString P e) = .ok e :=
-  roundtrip hw hnl hmk hunp hshape
+/-- `ends_like_modifier` (the renderer's test) holds for every text the grammar reads as
+expression + modifier, for any `\s` class contained in `char::is_whitespace` -/
+theorem C08_ends_like_modifier_sound (W S : Char → Bool) (hsub : ∀ c, W c = true → S c = true)
+    (t p K : List Char) (Q : Option Char) (h : Modifier W t p K Q) : endsLikeModifier S t = true :=
+  endsLike_of_modifier hsub h
+
+/-- what parsing the canonical form gives, for every expectation: the rule made from
+`sourceText` under `sourceKind`, with the same quantifier -/
+theorem C08_parse_render (P : Params) (hw : P.isWhite ' ' = true)
+    (hsub : ∀ c, P.isWhite c = true → P.isSpaceStd c = true) (e : Expectation)
+    (hnl : '\n' ∉ sourceText P e) :
+    parse P (toExpressionString P e) =
+      match makeRule P (sourceKind P e) (sourceText P e) with
+      | none => .error .makeError
+      | some b => .ok ⟨sourceKind P e, b, e.optional, e.multiline⟩ :=
+  parse_render hw hsub hnl
+
+/-- **C08 (round trip)**: for every expectation of every kind, parsing the canonical form gives
+the expectation back (kind, expression, quantifier; `equal` with unprintable content as `escaped`),
+provided the rule constructor reproduces the expression from the rendered text (`hmk`, the
+constructor/escaper contract). No guard on the text's shape. -/
+theorem C08_roundtrip (P : Params) (hw : P.isWhite ' ' = true)
+    (hsub : ∀ c, P.isWhite c = true → P.isSpaceStd c = true) (e : Expectation)
+    (hnl : '\n' ∉ sourceText P e)
+    (hmk : makeRule P (sourceKind P e) (sourceText P e) = some e.expr) :
+    parse P (toExpressionString P e) = .ok (reread P e) :=
+  roundtrip hw hsub hnl hmk
+
+/-- the contract `hmk` is also necessary: where it fails (today: the ` (no-eol)` strip of the
+`escaped` constructor, class `C08:escaped-no-eol-strip-roundtrip`) the round trip fails -/
+theorem C08_roundtrip_iff (P : Params) (hw : P.isWhite ' ' = true)
+    (hsub : ∀ c, P.isWhite c = true → P.isSpaceStd c = true) (e : Expectation)
+    (hnl : '\n' ∉ sourceText P e) :
+    parse P (toExpressionString P e) = .ok (reread P e) ↔
+      makeRule P (sourceKind P e) (sourceText P e) = some e.expr :=
+  roundtrip_iff hw hsub hnl
+
+/-- the open finding on its witness `a<TAB> (no-eol) (equal)`: the expression `a<TAB> (no-eol)` is
+rendered `a\\t (no-eol)`; an `escaped` constructor that makes other bytes `b'` of that text (the real
+one strips ` (no-eol)`) lets the canonical form read back as those -/
+theorem C08_roundtrip_fails_on_witness (P : Params) (hw : P.isWhite ' ' = true)
+    (hsub : ∀ c, P.isWhite c = true → P.isSpaceStd c = true) (b b' : List UInt8)
+    (hu : P.hasUnprintable b = true)
+    (ht : P.escPrintable b = ['a', '\\', 't', ' ', '(', 'n', 'o', '-', 'e', 'o', 'l', ')'])
+    (hmk : P.make .escaped ['a', '\\', 't', ' ', '(', 'n', 'o', '-', 'e', 'o', 'l', ')'] = some b')
+    (hne : b' ≠ b) :
+    parse P (toExpressionString P ⟨.equal, b, false, false⟩) = .ok ⟨.escaped, b', false, false⟩ ∧
+    parse P (toExpressionString P ⟨.equal, b, false, false⟩) ≠ .ok (reread P ⟨.equal, b, false, false⟩) :=
+  roundtrip_fails_no_eol_strip hw hsub hu ht hmk hne
+
+/-- `reread` is the identity except for `equal` with unprintable content -/
+theorem C08_reread_eq (P : Params) (e : Expectation)
+    (h : e.kind = .equal → P.hasUnprintable e.expr = false) : reread P e = e :=
+  reread_eq h
 
 /-- consequence for matching, for any rule semantics that is a function of kind and expression -/
-theorem C08_roundtrip_matches (P : Params) (hw : P.isWhite ' ' = true) (e : Expectation)
-    (hnl : '\n' ∉ P.escPrintable e.expr)
-    (hmk : makeRule P e.kind (P.escPrintable e.expr) = some e.expr)
-    (hunp : e.kind = .equal → P.hasUnprintable e.expr = false)
-    (hshape : e.kind = .equal → quantOpt e.optional e.multiline = none →
-      ModifierShaped P.isWhite (P.escPrintable e.expr) = false)
+theorem C08_roundtrip_matches (P : Params) (hw : P.isWhite ' ' = true)
+    (hsub : ∀ c, P.isWhite c = true → P.isSpaceStd c = true) (e : Expectation)
+    (hnl : '\n' ∉ sourceText P e)
+    (hmk : makeRule P (sourceKind P e) (sourceText P e) = some e.expr)
+    (hu : e.kind = .equal → P.hasUnprintable e.expr = false)
     (ruleMatches : Kind → List UInt8 → List UInt8 → Bool) :
     ∃ e', parse P (toExpressionString P e) = .ok e' ∧ e'.optional = e.optional ∧
       e'.multiline = e.multiline ∧ ∀ line, e'.matches ruleMatches line = e.matches ruleMatches line :=
-  ⟨e, roundtrip hw hnl hmk hunp hshape, rfl, rfl, fun _ => rfl⟩
+  ⟨e, by rw [roundtrip hw hsub hnl hmk, reread_eq hu], rfl, rfl, fun _ => rfl⟩
 
-/-- an `equal` expectation with unprintable content is written as `escaped` and comes back as the
-`escaped` expectation the rule constructor makes of the escaped text, same quantifier -/
-theorem C08_roundtrip_equal_unprintable (P : Params) (hw : P.isWhite ' ' = true) (e : Expectation)
-    (hnl : '\n' ∉ P.escPrintable e.expr) (hk : e.kind = .equal) (hu : P.hasUnprintable e.expr = true) :
-    parse P (toExpressionString P e) =
-      match P.make .escaped (P.escPrintable e.expr) with
-      | none => .error .makeError
-      | some b => .ok ⟨.escaped, b, e.optional, e.multiline⟩ :=
-  parse_render_equal_unprintable hw hnl hk hu
-
-/-- the guard `hshape` is necessary (oracle class `C08:equal-modifier-shaped-roundtrip`):
-`foo (glob) (equal)` parses to the `equal` expectation `foo (glob)`, which is rendered as
-`foo (glob)` and does not come back. -/
-theorem C08_roundtrip_fails_on_witness (P : Params) (hw : P.isWhite ' ' = true) (b : List UInt8)
+/-- regression example (the witness of the defect repaired by 2c946ec): `foo (glob) (equal)`
+parses to the `equal` expectation `foo (glob)`; it is now written `foo (glob) (equal)` and reads back -/
+theorem C08_roundtrip_equal_modifier_shaped (P : Params) (hw : P.isWhite ' ' = true)
+    (hsub : ∀ c, P.isWhite c = true → P.isSpaceStd c = true) (b : List UInt8)
     (hu : P.hasUnprintable b = false)
-    (ht : P.escPrintable b = ['f', 'o', 'o', ' ', '(', 'g', 'l', 'o', 'b', ')']) :
-    parse P (toExpressionString P ⟨.equal, b, false, false⟩) ≠ .ok ⟨.equal, b, false, false⟩ :=
-  roundtrip_fails_equal_modifier_shaped hw hu ht
-
-/-- the guard `hmk` is necessary and sufficient for every kind but `equal` (oracle classes
-`C08:escaped-pattern-roundtrip`, `C08:escaped-backslash-roundtrip`): the round trip holds exactly
-when re-making the rule from the rendered text reproduces it -- which the real `glob`, `regex` and
-`no-eol` rules do not do for expressions that are rendered with escape sequences. -/
-theorem C08_roundtrip_nonequal_iff (P : Params) (hw : P.isWhite ' ' = true) (e : Expectation)
-    (hnl : '\n' ∉ P.escPrintable e.expr) (hk : e.kind ≠ .equal) :
-    parse P (toExpressionString P e) = .ok e ↔
-      makeRule P e.kind (P.escPrintable e.expr) = some e.expr :=
-  roundtrip_nonequal_iff hw hnl hk
+    (ht : P.escPrintable b = ['f', 'o', 'o', ' ', '(', 'g', 'l', 'o', 'b', ')'])
+    (hb : utf8 ['f', 'o', 'o', ' ', '(', 'g', 'l', 'o', 'b', ')'] = b) :
+    toExpressionString P ⟨.equal, b, false, false⟩ =
+      ['f', 'o', 'o', ' ', '(', 'g', 'l', 'o', 'b', ')', ' ', '(', 'e', 'q', 'u', 'a', 'l', ')'] ∧
+    parse P (toExpressionString P ⟨.equal, b, false, false⟩) = .ok ⟨.equal, b, false, false⟩ :=
+  roundtrip_equal_modifier_shaped hw hsub hu ht hb
 
 /-! ### non-vacuity -/
 
 /-- a parameter instance: only the blank is white, every construction keeps the text, nothing needs escaping -/
 def P0 : Params :=
   { isWhite := fun c => c == ' ', make := fun _ t => some (utf8 t),
-    escPrintable := fun _ => ['f', 'o', 'o'], hasUnprintable := fun _ => false }
+    escPrintable := fun _ => ['f', 'o', 'o'], hasUnprintable := fun _ => false,
+    isSpaceStd := fun c => c == ' ', lossy := fun _ => ['f', 'o', 'o'] }
 
 example : Modifier P0.isWhite ['f', 'o', 'o', ' ', '(', 'g', 'l', '?', ')'] ['f', 'o', 'o'] ['g', 'l'] (some '?') :=
   ⟨' ', by decide, Or.inr (by decide), by simp; decide, by simp, by simp⟩
@@ -164,19 +191,21 @@ example : ¬ ∃ p K Q, Modifier P0.isWhite ['f', 'o', 'o', ' ', '(', ')'] p K Q
   have := (modifier_iff (by decide)).mp h
   simp [modifierOf, scan, suffixAt, alts, kindNames, kindTable, firstAlt, stripPrefix, tail?, P0] at this
 
-/-- the hypotheses of `C08_roundtrip_partial` are satisfiable for every kind and quantifier -/
+/-- the hypotheses of `C08_roundtrip` are satisfiable for every kind and quantifier -/
 example (k : Kind) (o m : Bool) :
     let e : Expectation := ⟨k, utf8 ['f', 'o', 'o'], o, m⟩
-    '\n' ∉ P0.escPrintable e.expr ∧ makeRule P0 e.kind (P0.escPrintable e.expr) = some e.expr ∧
-    (e.kind = .equal → P0.hasUnprintable e.expr = false) ∧
-    (e.kind = .equal → quantOpt e.optional e.multiline = none →
-      ModifierShaped P0.isWhite (P0.escPrintable e.expr) = false) := by
-  refine ⟨by simp [P0], by cases k <;> rfl, fun _ => rfl, fun _ _ => ?_⟩
-  simp [ModifierShaped, modifierOf, scan, suffixAt, P0]
+    P0.isWhite ' ' = true ∧ (∀ c, P0.isWhite c = true → P0.isSpaceStd c = true) ∧
+    '\n' ∉ sourceText P0 e ∧ makeRule P0 (sourceKind P0 e) (sourceText P0 e) = some e.expr := by
+  refine ⟨rfl, fun _ h => h, ?_, ?_⟩
+  · cases k <;> simp [sourceText, P0, doubleBackslash]
+  · cases k <;> simp [sourceKind, sourceText, P0, doubleBackslash, makeRule]
 
-/-- and of the failing witness -/
-example : ∃ P : Params, P.isWhite ' ' = true ∧ P.hasUnprintable [] = false ∧
-    P.escPrintable [] = ['f', 'o', 'o', ' ', '(', 'g', 'l', 'o', 'b', ')'] :=
-  ⟨{ P0 with escPrintable := fun _ => ['f', 'o', 'o', ' ', '(', 'g', 'l', 'o', 'b', ')'] }, rfl, rfl, rfl⟩
+/-- and of the regression example (`ends_like_modifier` is true of `foo (glob)` but the grammar
+    over-approximation is proper: it is also true of `foo (bar)`, which is no modifier) -/
+example : endsLikeModifier P0.isSpaceStd ['f', 'o', 'o', ' ', '(', 'b', 'a', 'r', ')'] = true ∧
+    modifierOf P0.isWhite ['f', 'o', 'o', ' ', '(', 'b', 'a', 'r', ')'] = none := by
+  constructor
+  · simp [endsLikeModifier, splitLast, stripQuantRev, isQuantChar, isLowerDash, P0]
+  · simp [modifierOf, scan, suffixAt, alts, kindNames, kindTable, firstAlt, stripPrefix, tail?, P0]
 
 end Scrut.Props.C08
